@@ -374,7 +374,20 @@ def r4_who_may_write(ctx):
         ws = [(f, b, how) for f, b, how, _ in field_writes(facts, adt, field) if not f.derived]
         writers = {(f.closure_of or f.name) for f, _, _ in ws}
         # a helper all of whose call sites are inside the owner methods is part of them (what the owners toggle is decided by R1-R3)
-        ctx.ob(rule, '%s.%s' % (adt, field), 'writers ⊆ owner methods', writers <= allowed or writers <= facts.only_through(allowed), found=sorted(writers),
+        # a further method of the owner type itself that only Board delegators (or the owner type) call is one more owner method
+        # (`PieceSet::remove_located` beside `PieceSet::remove`): what the calling delegator toggles is decided by R1-R3 all the same
+        more = set()
+        for w in writers - allowed:
+            wf = facts.fns.get(w)
+            if wf is not None and w.startswith(adt + '::') and wf.kind != 'Closure':
+                cs = {(f_.closure_of or f_.name) for f_, _ in facts.call_sites(w, crate='chess', kinds=('lib', 'bin'))}
+                # ... provided the Board-level callers are delegators whose toggles R1-R3 decide (put / remove / the stack delegators): a
+                # NEW Board method that changes placement through it is not covered by those rules and stays a violation here
+                decided = {BOARD + '::' + m_ for m_ in ('put', 'remove', 'push_en_passant_target', 'pop_en_passant_target', 'lose_castle_rights',
+                                                        'pop_castle_rights', 'preserve_castle_rights')} | set(allowed)
+                if cs and all(c_ in decided or (c_.startswith(adt + '::') and c_ in allowed) for c_ in cs):
+                    more.add(w)
+        ctx.ob(rule, '%s.%s' % (adt, field), 'writers ⊆ owner methods', writers <= (allowed | more) or writers <= (facts.only_through(allowed) | more), found=sorted(writers),
                expected=sorted(allowed), why='state that the key (or undo) depends on may only change through its owner methods')
         ctx.floor(rule, 'writers of %s.%s' % (adt, field), len(writers), 1)      # non-vacuity only: a refactoring may legitimately route a writer through a sibling
     # owner methods are called only by the Board delegators
